@@ -59,6 +59,9 @@ DeriveMsg(cls, mk) ==
     ELSE IF mk = "kwnested" THEN [k |-> "template", t |-> "kwn", f |-> fmt]
     ELSE IF mk = "kwattr" THEN [k |-> "template", t |-> "kwa", f |-> fmt]     \* fields addressed through their attributes
     ELSE IF mk = "kwcustom" THEN [k |-> "template", t |-> "kwc", f |-> fmt]
+    \* fields whose values cannot describe themselves (str() raises, unknown attributes raise KeyError): the feedback
+    \* is delivered all the same, with the value's repr (or the default object repr) in the field's place
+    ELSE IF mk = "kwhostile" THEN [k |-> "template", t |-> "kwh", f |-> fmt]
     ELSE [k |-> "template", t |-> Eff(attr, cls, "template"), f |-> fmt]
 NoMsg == [k |-> "none", t |-> "-", f |-> "-"]
 
@@ -98,7 +101,7 @@ Attach(o, i) == /\ active' = IF o.list = "active" THEN Append(active, i) ELSE ac
 \* par: the `parent` keyword -- "none", or "str": a section named by a plain string (bookkeeping is the same)
 Create(cls, mk, out, delay, par) ==
     /\ CanAct /\ Len(objs) < MaxObjs
-    /\ ~(mk = "explicit" /\ out = "MR") /\ ~(cls = "T" /\ out = "CR") /\ ~(cls = "T" /\ mk \in {"kwnested", "kwcustom", "kwattr"})
+    /\ ~(mk = "explicit" /\ out = "MR") /\ ~(cls = "T" /\ out = "CR") /\ ~(cls = "T" /\ mk \in {"kwnested", "kwcustom", "kwattr", "kwhostile"})
     /\ delay => cls \in DelayCls
     /\ LET o0 == [cls |-> cls, mk |-> mk, out |-> out, eff |-> out, status |-> "delayed", truth |-> FALSE,
                   list |-> "none", msg |-> NoMsg]
